@@ -25,7 +25,13 @@ def setter_target(rng, name="Setter"):
         Fn("set", [("x", U)], arg(0) + [0, "SSTORE"] + arg(0) + [T, "LT", "@big", "JUMPI", "STOP", ":big", 0, 0, "LOG0", "STOP"]),
         Fn("get", [], ret_word([0, "SLOAD"]), mutability="view", outputs=[U]),
     ]
-    return A.ContractSpec(name, fns), dict(kind="setter", consts=[lo, hi, T, T + 1], bounds=[lo, hi])
+    consts = [lo, hi, T, T + 1]
+    if rng.random() < 0.5:
+        # assertion inside a target, reachable only after a particular value was stored: check() panics iff s == magic
+        magic = rng.choice([3, T + 1])
+        fns.append(Fn("check", [], [0, "SLOAD", magic, "EQ", "@bad", "JUMPI", "STOP", ":bad"] + panic(1)))
+        consts.append(magic)
+    return A.ContractSpec(name, fns), dict(kind="setter", consts=consts, bounds=[lo, hi])
 
 
 def clock_target(rng, name="Clock"):
